@@ -1694,6 +1694,74 @@ LIB["numba.core.types.boolean"] = _dtype_caller("bool")
 LIB["numpy.bool_"] = _dtype_caller("bool")
 
 
+@native
+def np_sign(interp, st, a, **kw):
+    def f(x):
+        x = interp.use(st, x)
+        if not is_sym(x):
+            return (x > 0) - (x < 0)
+        return z3.If(x > 0, 1, z3.If(x < 0, -1, 0))
+    return elementwise1(interp, st, f, a)
+
+
+@native
+def np_clip(interp, st, a, lo, hi, **kw):
+    def f(x):
+        return interp.A.minimum(interp.A.maximum(interp.use(st, x), lo), hi)
+    return elementwise1(interp, st, f, a)
+
+
+@native
+def np_mean(interp, st, a, **kw):
+    return _mean(interp, st, a)
+
+
+@native
+def np_count_nonzero(interp, st, a, **kw):
+    vals, mask = _values_of(interp, st, a)
+    tot = 0
+    for i, x in enumerate(vals):
+        t = interp.A.truthy(x)
+        if mask is not None:
+            t = z_and(mask[i], t)
+        tot = interp.A.add(tot, V.num_of_bool(t))
+    return tot
+
+
+@native
+def np_copy(interp, st, a, **kw):
+    return _copy(interp, st, a)
+
+
+@native
+def b_divmod(interp, st, a, b):
+    return (interp.scalar_binop(st, "FloorDiv", a, b), interp.scalar_binop(st, "Mod", a, b))
+
+
+@native
+def b_any(interp, st, xs):
+    return z_or(*[interp.truth(st, x) for x in interp.iter_values(st, xs)])
+
+
+@native
+def b_all(interp, st, xs):
+    return z_and(*[interp.truth(st, x) for x in interp.iter_values(st, xs)])
+
+
+@native
+def b_sorted(interp, st, xs, **kw):
+    vals = interp.iter_values(st, xs)
+    if any(is_sym(v) for v in vals):
+        r = try_concrete_order(interp, st, vals) if interp.facts is not None else None
+        return r if (r is not None and len(r) == len(vals)) else sorted_terms(interp, st, vals)
+    return sorted(vals, reverse=bool(kw.get("reverse")))
+
+
+BUILTINS.update({"divmod": b_divmod, "any": b_any, "all": b_all, "sorted": b_sorted})
+LIB.update({"numpy.sign": np_sign, "numpy.clip": np_clip, "numpy.mean": np_mean, "numpy.count_nonzero": np_count_nonzero, "numpy.copy": np_copy,
+            "numpy.absolute": np_abs, "numpy.float_power": b_pow})
+
+
 def call_lib(interp, st, name, args, kwargs):
     name = ALIASES.get(name, name)
     fn = interp.lib_overrides.get(name) if hasattr(interp, "lib_overrides") else None
